@@ -76,9 +76,23 @@ package fstree
 //@   property C13
 //@   valid b != nil
 
+// "Writes that were not affected still succeed": the writer's batch lock serialises all
+// combined writes, so a write - failed or not - must leave it released.
+//@ ghost field mutexHeld(m *sync.Mutex) bool
+//@ callrule c13_mutex_lock in (*linuxWriter).writeCombinedFile
+//@   property C13
+//@   callee (*sync.Mutex).Lock
+//@   assigns mutexHeld
+//@   defines mutexHeld(self) && (forall o *sync.Mutex :: o != self ==> mutexHeld(o) == old(mutexHeld(o)))
+//@ callrule c13_mutex_unlock in (*linuxWriter).writeCombinedFile
+//@   property C13
+//@   callee (*sync.Mutex).Unlock
+//@   assigns mutexHeld
+//@   defines !mutexHeld(self) && (forall o *sync.Mutex :: o != self ==> mutexHeld(o) == old(mutexHeld(o)))
 //@ func (*linuxWriter).writeCombinedFile
 //@   property C13
 //@   valid w != nil
+//@   ensures [batch_lock_released_on_every_return] !mutexHeld(fieldaddr(w, "batchLock"))
 //@   ensures [success_only_through_the_batch_result] err == nil ==> resultOf(err, "(*fstree.syncBatch).wait")
 
 //@ func (*linuxWriter).writeBatch
